@@ -51,6 +51,11 @@ opkinds! {
     NewLeaf = 26, 1;       // (p)
     TouchLeaf = 27, 1;     // (p)
     DropLeaf = 28, 1;      // (p)
+    LeafBarrier = 80, 3;   // (path, p, c): raw barrier with the non-tracing leaf of p as parent and node c as child
+    SetWeakLeaf = 81, 2;   // (p, q): p.wl = downgrade(q.leaf)
+    ClearWeakLeaf = 82, 1; // (p)
+    UpLeaf = 83, 2;        // (h, p): upgrade h.wl and store it as p.leaf
+    FinResLeaf = 84, 1;    // (p): resurrect p.wl's target (a non-tracing object)
     // ---- dynamic roots (C14) ----
     Stash = 29, 3;         // (hi, c, set)
     CloneH = 30, 2;        // (from, to)
@@ -119,7 +124,7 @@ impl Op {
         matches!(self.k, K::CycleStep | K::MarkStep | K::Step | K::FinMark | K::FinCycle | K::StartSweep | K::Fault)
     }
     pub fn is_fin(self) -> bool {
-        matches!(self.k, K::FinQuery | K::FinRes | K::FinResStore | K::FinGcRes | K::PFin)
+        matches!(self.k, K::FinQuery | K::FinRes | K::FinResStore | K::FinGcRes | K::PFin | K::FinResLeaf)
     }
     /// A mutator callback (`mutate`, `mutate_root`, `map_root`, `try_map_root`).
     pub fn is_mutator(self) -> bool {
